@@ -42,7 +42,7 @@ def pad_expr_of_make_header():
                           lambda n: isinstance(n, ast.If) and isinstance(n.test, ast.Name) and n.test.id == 'directio'
                           and any(isinstance(c, ast.Call) and isinstance(c.func, ast.Name) and c.func.id == 'bytearray' for c in ast.walk(n)))
     if len(nodes) != 1:
-        raise core.HarnessError(f"_make_header: expected one `if directio:` block writing a bytearray, found {len(nodes)} (source refactored: slice not found)")
+        raise core.SliceMissing(f"_make_header: expected one `if directio:` block writing a bytearray, found {len(nodes)} (source refactored: slice not found)")
     body = ast.Module(body=nodes[0].body, type_ignores=[])
     code = compile(body, '<slice:_make_header padding>', 'exec')
 
@@ -195,7 +195,7 @@ def job_reader_sizes():
                     try:
                         vals.append(lift(eval_node(node, env)))
                     except Exception as e:
-                        raise core.HarnessError(f"{label}: cannot evaluate sliced 512-expression: {e!r}")
+                        raise core.SliceMissing(f"{label}: cannot evaluate sliced 512-expression: {e!r}")
                 # whatever the reader computes from 512 must make (header read) == writer model
                 ok = False
                 for v in vals:
@@ -213,7 +213,7 @@ def job_reader_sizes():
                               lambda x: isinstance(x, (ast.If, ast.Assign)) and any(isinstance(t, ast.Attribute) and t.attr == 'header_size' for s_ in ast.walk(x) if isinstance(s_, ast.Assign) for t in s_.targets))
         tops = [x for x in nodes if not any(x is not y and x in list(ast.walk(y)) for y in nodes)]
         if len(tops) != 1:
-            raise core.HarnessError(f"from_data: header_size assignment not found ({len(tops)})")
+            raise core.SliceMissing(f"from_data: header_size assignment not found ({len(tops)})")
 
         class BE:
             pass
@@ -256,7 +256,7 @@ def job_file_split(bpf):
     btw = [x for x in nodes if x.targets[0].id == 'blocks_to_write']
     ifs, _ = find_nodes(B.RawVoltageBackend.record, lambda x: isinstance(x, ast.If) and any(isinstance(s_, ast.Assign) and isinstance(s_.targets[0], ast.Name) and s_.targets[0].id == 'blocks_to_write' for s_ in x.body))
     if len(nf) != 1 or len(ifs) != 1:
-        raise core.HarnessError("record(): file-split statements not found")
+        raise core.SliceMissing("record(): file-split statements not found")
     ni, ii = z3.Int('n'), z3.Int('i')
     n, i = Sym(z3.ToReal(ni), True), Sym(z3.ToReal(ii), True)
 
@@ -346,22 +346,25 @@ def card_text(v):
     return str(v).strip("'").strip()
 
 
-def job_record(k_extra, directio, nblocks, bpf, nant, template):
-    """real record() into memory, then the real readers and an independent parser"""
+def job_record(k_extra, directio, nblocks, bpf, nant, template, prior=None):
+    """real record() into memory, then the real readers and an independent parser.
+    prior = (k_extra, directio, template) of an earlier recording made on the same backend object first"""
     recs = []
-    tag = f"C04:record:{(k_extra, directio, nblocks, bpf, nant, template)}"
+    tag = f"C04:record:{(k_extra, directio, nblocks, bpf, nant, template)}" + (f":after{prior}" if prior else '')
     fs = MemFS()
     user = user_cards(k_extra, directio, template)
     user_copy = dict(user)
-    pl = dict(fn='record', k_extra=k_extra, directio=directio, nblocks=nblocks, bpf=bpf, nant=nant, template=template)
+    pl = dict(fn='record', k_extra=k_extra, directio=directio, nblocks=nblocks, bpf=bpf, nant=nant, template=template, prior=list(prior) if prior else None)
     problems = []
     with volt_patches(opener=fs.open, globber=type('G', (), {'glob': staticmethod(lambda pat: fs.glob(pat))})):
         be, ant, ws = C02.build(4, 2, 2, 1, 2, nant, 8, 0, 2, bpf)
+        if prior:
+            be.record('/mem/prior', num_blocks=2, length_mode='num_blocks', header_dict=user_cards(prior[0], prior[1], prior[2]), digitize=True, verbose=False, load_template=prior[2])
         try:
             be.record('/mem/out', num_blocks=nblocks, length_mode='num_blocks', header_dict=user, digitize=True, verbose=False, load_template=template)
         except Exception as e:
             problems.append(f"record raised {type(e).__name__}: {e}")
-        names = fs.names() if not problems else []      # a truncated recording is not handed to the readers
+        names = [n_ for n_ in fs.names() if n_.startswith('/mem/out.')] if not problems else []      # a truncated recording is not handed to the readers
         nfiles = -(-nblocks // bpf)
         if not problems and names != [f'/mem/out.{i:04d}.raw' for i in range(nfiles)]:
             problems.append(f"files {names}")
@@ -496,6 +499,11 @@ def replay_record(p):
     msgs = []
     try:
         stem = os.path.join(d, 'o')
+        if p.get('prior'):
+            pr = p['prior']
+            be.record(os.path.join(d, 'prior'), num_blocks=2, length_mode='num_blocks', header_dict=user_cards(pr[0], pr[1], pr[2]), digitize=True, verbose=False, load_template=pr[2])
+            for f_ in os.listdir(d):
+                os.remove(os.path.join(d, f_))
         be.record(stem, num_blocks=nblocks, length_mode='num_blocks', header_dict=user, digitize=True, verbose=False, load_template=p['template'])
         files = sorted(os.listdir(d))
         total = 0
@@ -625,6 +633,10 @@ def main():
         jobs.append(('job_record', (2, 0, nblocks, bpf, 1, True)))
         jobs.append(('job_record', (3, None, nblocks, bpf, 1, True)))
         jobs.append(('job_record', (17, 0, nblocks, bpf, 2, False)))
+    # a second recording on the same backend object, with another header layout than the first
+    for (cur, prior) in (((3, 0, 3, 2, 1, False), (3, 1, False)), ((3, 1, 3, 2, 1, False), (3, 0, False)), ((12, 1, 3, 2, 1, False), (3, 1, False)), ((3, None, 2, 2, 1, True), (3, 1, False)),
+                         ((18, 1, 3, 3, 1, False), (17, 1, False)), ((2, 1, 2, 1, 1, False), (2, None, True))):
+        jobs.append(('job_record', cur + (prior,)))
     for nant in (1, 2):
         jobs.append(('job_config_fields', (nant,)))
     ck.bounds = dict(header_cards='symbolic integer >= 1 (size obligations); 0..40 cards executed; user cards 0..33 in recordings', directio=[v for v, _ in DIRECTIO_VARIANTS],
